@@ -427,7 +427,7 @@ def angles_to_x(points, latitude=False):
         The corresponding Cartesian vectors.
     """
     npoints, ncol = points.shape
-    x = np.zeros((npoints, 3), dtype=points.dtype)
+    x = np.zeros((npoints, 3), dtype=np.result_type(points.dtype, np.float32))
     phi = np.radians(points[:, 0])
     if latitude:
         theta = np.radians(90.0 - points[:, 1])
